@@ -177,6 +177,10 @@ def modfunc(ex, state, mod, name, args, kw, line):
     ctx = ex.ctx
     if mod in ('utl', '_time', 'time'):
         return SNum('t')
+    if mod == 'math' and name == 'factorial':
+        n = args[0]
+        ctx.oblige(state, 'factorial-domain', line, zi(n) >= 0, 'math.factorial of a negative number raises ValueError')
+        return SNum('factorial', nonzero=z3.BoolVal(True), nonneg=z3.BoolVal(True))
     if mod in ('tt', 'sle') and ('fn:' + name) in ctx.registry:
         return call_contract(ex, state, 'fn:' + name, args, kw, line)
     if mod == 'np.linalg' and name == 'norm':
